@@ -90,7 +90,10 @@ def call(
     for exponent, coefficient in zip(poly.exponents, poly.coefficients):
         term = ones
         for power, name in zip(exponent, poly.names):
-            term = term * parameters[name] ** power
+            value = parameters[name]
+            if not isinstance(value, numpoly.ndpoly):
+                value = numpy.asarray(value)
+            term = term * value ** int(power)
         if isinstance(term, numpoly.ndpoly):
             tmp = numpoly.outer(coefficient, term)
         else:
